@@ -259,7 +259,22 @@ def oracle (hz n : Nat) (okv : List String) (os : List OSub) (ws : List String) 
                                               afterBegin := [], ackedEv := fl.evwm, flight := none }
             else updateO os id fun o => { o with afterBegin := [], flight := none }
           let gone := if (mode = "drop" || o.mustEnd) && itab.any (fun i => i.id = id) then some s!"ended subscription {id} is back in the table" else none
-          (os', firstSome [gone, checkPresent os' itab])
+          -- `unsent` = nothing was sent, yet the watermarks captured when the report began are
+          -- committed: legitimate only if nothing the subscriber selects (at table level: the probed
+          -- universe) and no event was owed at that moment and the subscription is primed
+          let owedAtBegin := o.owed.drop o.afterBegin.length
+          let unsentBad :=
+            if mode = "unsent" && !o.mustEnd then
+              if o.lastSuccess.isNone then
+                some s!"the first report of subscription {id} was not sent but is considered delivered (lost)"
+              else match owedAtBegin.find? (fun p => probes.any (fun u => covers p (pathEntry u))) with
+                | some p => some s!"the report to subscription {id} was not sent but is considered delivered: its watermark moves past the change of {p.ep}.{p.cl}.{p.attr} it was owed when the report began (lost)"
+                | none =>
+                  if decide (fl.evwm > o.ackedEv) then
+                    some s!"the report to subscription {id} was not sent but is considered delivered: events up to {fl.evwm} are skipped, only {o.ackedEv} were delivered (lost)"
+                  else none
+            else none
+          (os', firstSome [gone, unsentBad, checkPresent os' itab])
       | _, _ => (os, none)
   | ["purge"] => (os, checkPresent os itab)
   | ["rm", fab, peer] =>
